@@ -329,3 +329,45 @@ func FuzzC15(f *testing.F) {
 	cov.Rule(c15Rule)
 	f.Fuzz(rapid.MakeFuzz(c15ErrorsProp))
 }
+
+// TestC15_WordSweep: every list word of every language inside one checksum-only-defect sentence
+// and one valid sentence (a list entry that moved, or was re-spelled, changes which of the two the
+// validator calls valid).
+func TestC15_WordSweep(t *testing.T) {
+	cov.Rule(c15Rule + " || word sweep: all 10 x 2048 list words, each inside two valid 12..24-word sentences and two sentences whose only defect is the checksum")
+	item := 0
+	for _, l := range allLangs() {
+		for i := 0; i < 2048; i++ {
+			item++
+			if !mine(item) {
+				continue
+			}
+			n := ref.Counts[(i+int(l))%5]
+			prefix := make([]int, n-1)
+			for j := range prefix {
+				prefix[j] = (i*7 + j*131 + 3) % 2048
+			}
+			prefix[i%(n-1)] = i
+			sol := ref.SolveLast(prefix)
+			isSol := map[int]bool{}
+			for _, x := range sol {
+				isSol[x] = true
+			}
+			for k := 0; k < 2; k++ {
+				good := append(append([]int(nil), prefix...), sol[(i+k*5)%len(sol)])
+				c := &errCase{Lang: l.Name(), Text: text(strings.Join(ref.Words(l, good), " ")), Want: "valid"}
+				c15Record(c, l)
+				judge(t, "c15.error", c15Check, c)
+				bad := (sol[(i+k*3)%len(sol)] + 1 + k) % 2048
+				for isSol[bad] {
+					bad = (bad + 1) % 2048
+				}
+				c = &errCase{Lang: l.Name(), Text: text(strings.Join(ref.Words(l, append(append([]int(nil), prefix...), bad)), " ")), Want: "checksum"}
+				c15Record(c, l)
+				cov.Class("word-sweep")
+				judge(t, "c15.error", c15Check, c)
+			}
+		}
+	}
+	cov.Exhaustive("all 10 x 2048 list words inside valid and checksum-only-defect sentences")
+}
